@@ -9,7 +9,7 @@ GLOBAL_ASSUMPTIONS = [
 OUTSIDE = {}
 ROTATE_K = {}
 MIN_DECIDED = {}
-JOBS = {"C06": 8, "C07": 8}
+JOBS = {}
 
 H = {}
 
@@ -156,4 +156,4 @@ OUTSIDE.update({
 })
 ROTATE_K.update({"C01": 6, "C02": 6, "C18": 4, "C03": 4, "C04": 3, "C05": 3, "C06": 1, "C07": 2, "C08": 2, "C09": 2, "C10": 1, "C11": 2})
 MIN_DECIDED.update({p: 2 for p in ["C01", "C02", "C03", "C04", "C05", "C06", "C07", "C08", "C09", "C10", "C11", "C12", "C13", "C14", "C15", "C17", "C18"]})
-JOBS.update({"C08": 10, "C09": 10, "C10": 10, "C11": 10, "C15": 8, "C17": 8, "C13": 10})
+JOBS.update({})
